@@ -960,11 +960,18 @@ class Engine(object):
             self.ctx.sort('Val')
             return [(VVal(self.model_app('py_arith_' + type(op).__name__.lower(), [a.t, b.t], 'Val')), st)]
         if isinstance(a, VStr) and isinstance(b, VStr) and isinstance(op, ast.Add):
-            return [(VStr(Concat(a.t, b.t)), st)]
+            new = Concat(a.t, b.t)
+            if a.t.lit is None and b.t.lit is not None:
+                # remembered: <text> + <literal> (a format template built by padding a literal template)
+                self.ctx.__dict__.setdefault('strcat', {})[new.s] = (a.t, b.t)
+            return [(VStr(new), st)]
         if isinstance(a, VStr) and isinstance(b, VInt) and isinstance(op, ast.Mult):
             if a.t.lit is not None and b.t.lit is not None:
                 return [(VStr(StrV(a.t.lit[1] * b.t.lit[1])), st)]
-            return [(VStr(self.model_app('str_repeat', [a.t, b.t], STR)), st)]
+            r = self.model_app('str_repeat', [a.t, b.t], STR)
+            if a.t.lit is not None:
+                self.ctx.__dict__.setdefault('repeat_of', {})[r.s] = a.t.lit[1]     # repetition of a known literal
+            return [(VStr(r), st)]
         if isinstance(a, VStr) and isinstance(op, ast.Mod):
             return self.call_model('str.%', [a, b], {}, st, node)
         if isinstance(op, ast.Add):
